@@ -144,7 +144,8 @@ def selftest(pid, wd, tpath):
             m = clone()
             m[k]["c"]["to_b"] += 1
             muts.append(("C01-balance-off-by-one", m))
-            break
+            if sum(1 for n_, _ in muts if n_ == "C01-balance-off-by-one") >= 3:
+                break
     for k, r in enumerate(recs):
         if r["ev"] == "msg" and r.get("kind") == "commitment_signed" and r["c"] and r["c"]["nondust"]:
             m = clone()
@@ -152,7 +153,8 @@ def selftest(pid, wd, tpath):
             m[k]["c"]["dust"].append(h)
             m[k]["nsigs"] -= 1
             muts.append(("C01-htlc-trimmed-as-dust", m))
-            break
+            if sum(1 for n_, _ in muts if n_ == "C01-htlc-trimmed-as-dust") >= 3:
+                break
     for k, r in enumerate(recs):
         # (one that reaches the peer on the same connection -- a revocation lost with its connection is simply
         # sent again -- and whose sender later receives another commitment_signed)
@@ -165,7 +167,8 @@ def selftest(pid, wd, tpath):
                any(x["ev"] == "deliver" and x.get("kind") == "commitment_signed" and x.get("to") == r["from"]
                    and x.get("chan") == r.get("chan") for x in same_conn):
                 muts.append(("C05-raa-dropped", recs[:k] + recs[k + 1:]))
-                break
+                if sum(1 for n_, _ in muts if n_ == "C05-raa-dropped") >= 3:
+                    break
     for k, r in enumerate(recs):
         if r["ev"] == "persist" and r.get("status") == "inprogress" and r.get("has_update"):
             # drop its completion: whatever was released afterwards was released too early
@@ -173,7 +176,8 @@ def selftest(pid, wd, tpath):
                 if recs[j]["ev"] == "complete" and recs[j]["run"] == r["run"] and recs[j]["node"] == r["node"] \
                         and recs[j]["chan"] == r["chan"] and recs[j]["id"] == r["id"]:
                     muts.append(("C09-completion-dropped", recs[:j] + recs[j + 1:]))
-                    break
+                    if sum(1 for n_, _ in muts if n_ == "C09-completion-dropped") >= 3:
+                        break
             if muts and muts[-1][0].startswith("C09"):
                 break
     for k, r in enumerate(recs):
@@ -181,13 +185,15 @@ def selftest(pid, wd, tpath):
             m = clone()
             m[k]["uid"] += 1
             muts.append(("C09-update-id-gap", m))
-            break
+            if sum(1 for n_, _ in muts if n_ == "C09-update-id-gap") >= 3:
+                break
     for k, r in enumerate(recs):
         if r["ev"] == "persist" and r.get("has_update"):
             m = clone()
             m[k]["rt"]["monitor"] = False
             muts.append(("C12-roundtrip-inequality", m))
-            break
+            if sum(1 for n_, _ in muts if n_ == "C12-roundtrip-inequality") >= 3:
+                break
     for k, r in enumerate(recs):
         # a node that restarted with a stale manager (channel closed) is made to sign again
         if r["ev"] == "event" and r.get("kind") == "ChannelClosed" and r.get("reason") == "OutdatedChannelManager":
@@ -195,19 +201,22 @@ def selftest(pid, wd, tpath):
             m.insert(k + 1, {"ev": "msg", "from": r["node"], "to": 1 - r["node"] if r["node"] < 2 else 1, "kind": "revoke_and_ack",
                              "chan": r["chan"], "secret_point": 1, "next_point": 2, "run": r["run"], "seq": 0})
             muts.append(("C10-stale-channel-resumed", m))
-            break
+            if sum(1 for n_, _ in muts if n_ == "C10-stale-channel-resumed") >= 3:
+                break
     for k, r in enumerate(recs):
         if r["ev"] == "rt_sweeper":
             m = clone()
             m[k]["equal"] = False
             muts.append(("C12-sweeper-copy-differs", m))
-            break
+            if sum(1 for n_, _ in muts if n_ == "C12-sweeper-copy-differs") >= 3:
+                break
     for k, r in enumerate(recs):
         if r["ev"] == "rt_scorer":
             m = clone()
             m[k]["answers_equal"] = False
             muts.append(("C12-scorer-copy-differs", m))
-            break
+            if sum(1 for n_, _ in muts if n_ == "C12-scorer-copy-differs") >= 3:
+                break
     for k, r in enumerate(recs):
         # a refused event that is never handed over again
         if r["ev"] == "event_refused" and r.get("kind") in ("PaymentSent", "PaymentFailed", "PaymentClaimable"):
@@ -216,34 +225,40 @@ def selftest(pid, wd, tpath):
                  and not (x["run"] == r["run"] and x["ev"] == "crash")]
             if len(m) != len(recs):
                 muts.append(("C10-refused-event-never-redelivered", m))
-                break
+                if sum(1 for n_, _ in muts if n_ == "C10-refused-event-never-redelivered") >= 3:
+                    break
     rejected = 0
     names = []
-    for name, m in muts:
-        # keep only the affected run plus nothing else (fast)
-        run = None
-        for a, b in zip(m, recs):
-            if a != b:
-                run = a["run"] if a["run"] == b["run"] else b["run"]
-                break
-        if run is None:
-            run = m[-1]["run"] if len(m) != len(recs) else recs[0]["run"]
+    kinds = []
+    for name, _ in muts:
+        if name not in kinds:
+            kinds.append(name)
+    for kind in kinds:
+        ok = False
+        for name, m in [x for x in muts if x[0] == kind]:
+            # keep only the affected run (fast)
+            run = None
             for a, b in zip(m, recs):
                 if a != b:
                     run = b["run"]
                     break
-        sel = [x for x in m if x["run"] == run]
-        p = os.path.join(wd, "selftest-%s.ndjson" % name)
-        with open(p, "w") as f:
-            for r in sel:
-                f.write(json.dumps(r) + "\n")
-        _, fails = vlib.validate_trace(pid, "ChanTrace", "ChanTrace.cfg", p, max_failures=1, tag="st")
-        names.append(name if fails else name + " (NOT REJECTED)")
-        if fails:
+            if run is None:
+                run = recs[len(m)]["run"] if len(m) < len(recs) else recs[0]["run"]
+            sel = [x for x in m if x["run"] == run]
+            p = os.path.join(wd, "selftest-%s.ndjson" % name)
+            with open(p, "w") as f:
+                for r in sel:
+                    f.write(json.dumps(r) + "\n")
+            _, fails = vlib.validate_trace(pid, "ChanTrace", "ChanTrace.cfg", p, max_failures=1, tag="st")
+            if fails:
+                ok = True
+                break
+        names.append(kind if ok else kind + " (NOT REJECTED)")
+        if ok:
             rejected += 1
-    if not muts or rejected != len(muts):
-        raise vlib.ToolError("binding self-test: %d of %d corrupted traces rejected (%s)" % (rejected, len(muts), names))
-    return {"mutations": len(muts), "rejected": rejected, "kinds": names}
+    if not kinds or rejected != len(kinds):
+        raise vlib.ToolError("binding self-test: %d of %d kinds of corruption rejected (%s)" % (rejected, len(kinds), names))
+    return {"mutations": len(kinds), "rejected": rejected, "kinds": names}
 
 
 def run_check(pid, tier, seed, mc_cfgs, profiles, thorough_profiles, assumptions, mc_types=("static",),
